@@ -57,6 +57,58 @@ Proof.
   - apply increasing_same_set_eq; assumption.
 Qed.
 
+(* sorted(extent_i) : the insertion sort returns the canonical representative *)
+Lemma insert_sorted_In x y l : In y (insert_sorted x l) <-> y = x \/ In y l.
+Proof.
+  induction l as [|z l IH]; simpl; [intuition|].
+  destruct (Nat.leb x z); simpl; [intuition|]. rewrite IH. intuition.
+Qed.
+
+Lemma sort_nat_In y l : In y (sort_nat l) <-> In y l.
+Proof.
+  induction l as [|x l IH]; simpl; [tauto|].
+  unfold sort_nat in *. simpl. rewrite insert_sorted_In, IH. intuition.
+Qed.
+
+Lemma insert_sorted_increasing x l :
+  increasing l -> ~ In x l -> increasing (insert_sorted x l).
+Proof.
+  unfold increasing. intros Hs. induction Hs as [|z l Hs IH Hf]; intros Hx; simpl.
+  - constructor; constructor.
+  - destruct (Nat.leb_spec x z) as [L|L].
+    + assert (x < z) by (destruct (Nat.eq_dec x z); [subst; exfalso; apply Hx; left; reflexivity | lia]).
+      constructor; [constructor; assumption|]. constructor; [assumption|].
+      rewrite Forall_forall in *. intros y Hy. specialize (Hf y Hy). lia.
+    + constructor.
+      * apply IH. intros Hin. apply Hx. right. exact Hin.
+      * apply Forall_forall. intros y Hy. apply insert_sorted_In in Hy. destruct Hy as [E|Hy].
+        -- subst. exact L.
+        -- rewrite Forall_forall in Hf. apply Hf. exact Hy.
+Qed.
+
+Lemma sort_nat_increasing l : NoDup l -> increasing (sort_nat l).
+Proof.
+  induction 1 as [|x l Hx Hn IH]; [constructor|].
+  unfold sort_nat in *. simpl. apply insert_sorted_increasing; [exact IH|].
+  intros Hin. apply Hx. apply (sort_nat_In x l). exact Hin.
+Qed.
+
+Lemma sort_nat_same_set a b :
+  NoDup a -> NoDup b -> same_set a b -> sort_nat a = sort_nat b.
+Proof.
+  intros Na Nb E. apply increasing_same_set_eq; try (apply sort_nat_increasing; assumption).
+  intros x. rewrite !sort_nat_In. apply E.
+Qed.
+
+(* equality of the sorted lists is equality as sets, on duplicate-free lists *)
+Lemma sorted_eq_is_set_eq a b :
+  NoDup a -> NoDup b -> nat_list_eqb (sort_nat a) (sort_nat b) = spec_eq a b.
+Proof.
+  intros Na Nb. apply bool_eq_iff. unfold spec_eq. rewrite nat_list_eqb_eq, same_setb_spec. split.
+  - intros E x. rewrite <- (sort_nat_In x a), <- (sort_nat_In x b), E. tauto.
+  - apply sort_nat_same_set; assumption.
+Qed.
+
 (* ------------------------------------------------------------------ FormalConcept *)
 
 Definition fc_comparable (a b : fconcept) : Prop :=
@@ -90,21 +142,31 @@ Proof.
     rewrite support_shortcut_sound by assumption. reflexivity.
 Qed.
 
-(* __eq__ is tuple equality of the extents, whatever they are *)
-Theorem fc_eq_tuple a b :
-  fc_comparable a b -> fc_eq a b = COk (nat_list_eqb (fc_extent_i a) (fc_extent_i b)).
+(* __eq__ compares the sorted extents, whatever they are *)
+Lemma sort_nat_length l : length (sort_nat l) = length l.
+Proof.
+  assert (X : forall x l, length (insert_sorted x l) = S (length l)).
+  { intros x l0. induction l0 as [|y l0 IH]; simpl; [reflexivity|].
+    destruct (Nat.leb x y); simpl; [reflexivity | rewrite IH; reflexivity]. }
+  induction l as [|x l IH]; [reflexivity|]. unfold sort_nat in *. simpl. rewrite X, IH. reflexivity.
+Qed.
+
+Theorem fc_eq_sorted a b :
+  fc_comparable a b ->
+  fc_eq a b = COk (nat_list_eqb (sort_nat (fc_extent_i a)) (sort_nat (fc_extent_i b))).
 Proof.
   intros Hc. unfold fc_eq. rewrite fc_guard_pass by exact Hc. unfold fc_support.
   destruct (Nat.eqb_spec (length (fc_extent_i a)) (length (fc_extent_i b))) as [E|NE];
     [reflexivity|]. simpl.
-  destruct (nat_list_eqb (fc_extent_i a) (fc_extent_i b)) eqn:E; [|reflexivity].
-  apply nat_list_eqb_length in E. contradiction.
+  destruct (nat_list_eqb (sort_nat (fc_extent_i a)) (sort_nat (fc_extent_i b))) eqn:E; [|reflexivity].
+  apply nat_list_eqb_length in E. rewrite !sort_nat_length in E. contradiction.
 Qed.
 
+(* == is equality of the extents as sets, in whatever order they are listed *)
 Theorem fc_eq_is_ext_equality a b :
-  fc_comparable a b -> increasing (fc_extent_i a) -> increasing (fc_extent_i b) ->
+  fc_comparable a b -> NoDup (fc_extent_i a) -> NoDup (fc_extent_i b) ->
   fc_eq a b = COk (spec_eq (fc_extent_i a) (fc_extent_i b)).
-Proof. intros Hc Ha Hb. rewrite fc_eq_tuple by exact Hc. rewrite list_eq_is_set_eq by assumption. reflexivity. Qed.
+Proof. intros Hc Na Nb. rewrite fc_eq_sorted by exact Hc. rewrite sorted_eq_is_set_eq by assumption. reflexivity. Qed.
 
 (* equal concepts hash equally, for every tuple-hash function *)
 Theorem fc_eq_hash (TH : list nat -> Z) a b :
@@ -118,11 +180,10 @@ Proof.
 Qed.
 
 Theorem fc_lt_is_strict a b :
-  fc_comparable a b -> increasing (fc_extent_i a) -> increasing (fc_extent_i b) ->
+  fc_comparable a b -> NoDup (fc_extent_i a) -> NoDup (fc_extent_i b) ->
   fc_lt a b = COk (spec_lt (fc_mono a) (fc_extent_i a) (fc_extent_i b)).
 Proof.
-  intros Hc Ha Hb.
-  pose proof (increasing_NoDup _ Ha) as Na. pose proof (increasing_NoDup _ Hb) as Nb.
+  intros Hc Na Nb.
   unfold fc_lt. rewrite fc_guard_pass by exact Hc. unfold fc_support, spec_lt.
   destruct (Nat.eqb_spec (length (fc_extent_i a)) (length (fc_extent_i b))) as [E|NE].
   - f_equal. symmetry. destruct (spec_le (fc_mono a) (fc_extent_i a) (fc_extent_i b)) eqn:L;
@@ -141,36 +202,36 @@ Qed.
 
 (* ... and in terms of the model's own <= and == *)
 Theorem fc_lt_le_and_ne a b :
-  fc_comparable a b -> increasing (fc_extent_i a) -> increasing (fc_extent_i b) ->
+  fc_comparable a b -> NoDup (fc_extent_i a) -> NoDup (fc_extent_i b) ->
   exists l e, fc_le a b = COk l /\ fc_eq a b = COk e /\ fc_lt a b = COk (l && negb e).
 Proof.
-  intros Hc Ha Hb. eexists. eexists. split; [|split].
-  - apply fc_le_is_inclusion; [exact Hc | apply increasing_NoDup; exact Ha | apply increasing_NoDup; exact Hb].
+  intros Hc Na Nb. eexists. eexists. split; [|split].
+  - apply fc_le_is_inclusion; assumption.
   - apply fc_eq_is_ext_equality; assumption.
   - apply fc_lt_is_strict; assumption.
 Qed.
 
-(* the strictness law really needs canonical extents: (0,2) vs (2,0) *)
+(* the listing order of an extent is irrelevant (since repair 0ac2495): (0,2) and (2,0) are ==,
+   hash equally, are <= each other and neither is < the other *)
 Definition c02 := mk_fc [0; 2] [] [] [] [] (Some 1%Z) false.
 Definition c20 := mk_fc [2; 0] [] [] [] [] (Some 1%Z) false.
-Lemma fc_lt_needs_canonical_refuted :
+Lemma fc_listing_order_irrelevant (TH : list nat -> Z) :
   fc_comparable c02 c20 /\ NoDup (fc_extent_i c02) /\ NoDup (fc_extent_i c20) /\
-  fc_le c02 c20 = COk true /\ fc_eq c02 c20 = COk false /\ fc_lt c02 c20 = COk false.
+  fc_eq c02 c20 = COk true /\ fc_ne c02 c20 = COk false /\ fc_hashv TH c02 = fc_hashv TH c20 /\
+  fc_le c02 c20 = COk true /\ fc_le c20 c02 = COk true /\ fc_lt c02 c20 = COk false.
 Proof.
   repeat split; try (vm_compute; reflexivity);
     repeat constructor; simpl; intuition discriminate.
 Qed.
 
-(* ... and so do antisymmetry and "== is equality of extents": same set, <= both ways, yet not == *)
-Lemma fc_order_laws_need_canonical_refuted :
-  fc_comparable c02 c20 /\ NoDup (fc_extent_i c02) /\ NoDup (fc_extent_i c20) /\
-  spec_eq (fc_extent_i c02) (fc_extent_i c20) = true /\
-  fc_le c02 c20 = COk true /\ fc_le c20 c02 = COk true /\ fc_eq c02 c20 = COk false /\
-  fc_ne c02 c20 = COk true.
-Proof.
-  repeat split; try (vm_compute; reflexivity);
-    repeat constructor; simpl; intuition discriminate.
-Qed.
+(* what is still needed is that extents are duplicate-free: (0,0) is a proper subset of (0,1) with the
+   same support, so <= holds, == does not, and yet < answers False *)
+Definition c00 := mk_fc [0; 0] [] [] [] [] (Some 1%Z) false.
+Definition c01 := mk_fc [0; 1] [] [] [] [] (Some 1%Z) false.
+Lemma fc_lt_needs_nodup_refuted :
+  fc_comparable c00 c01 /\ fc_le c00 c01 = COk true /\ fc_eq c00 c01 = COk false /\
+  spec_lt false (fc_extent_i c00) (fc_extent_i c01) = true /\ fc_lt c00 c01 = COk false.
+Proof. repeat split; vm_compute; reflexivity. Qed.
 
 (* derived operators *)
 Lemma fc_ne_is_not_eq a b : fc_ne a b = cres_map negb (fc_eq a b).
@@ -191,11 +252,10 @@ Proof.
 Qed.
 
 Theorem fc_le_antisym a b :
-  fc_comparable a b -> increasing (fc_extent_i a) -> increasing (fc_extent_i b) ->
+  fc_comparable a b -> NoDup (fc_extent_i a) -> NoDup (fc_extent_i b) ->
   fc_le a b = COk true -> fc_le b a = COk true -> fc_eq a b = COk true.
 Proof.
-  intros Hc Ha Hb.
-  pose proof (increasing_NoDup _ Ha) as Na. pose proof (increasing_NoDup _ Hb) as Nb.
+  intros Hc Na Nb.
   rewrite fc_le_is_inclusion by assumption.
   rewrite fc_le_is_inclusion by (try apply fc_comparable_sym; assumption).
   rewrite fc_eq_is_ext_equality by assumption.
@@ -254,7 +314,7 @@ Qed.
 (* ---- concepts the library derives from a context K (with hash function H) *)
 
 Definition fc_derived (H : fctx -> Z) (K : fctx) (mono : bool) (c : fconcept) : Prop :=
-  increasing (fc_extent_i c) /\ fc_hash c = Some (H K) /\ fc_mono c = mono.
+  NoDup (fc_extent_i c) /\ fc_hash c = Some (H K) /\ fc_mono c = mono.
 
 Lemma fc_derived_comparable H K mono a b :
   fc_derived H K mono a -> fc_derived H K mono b -> fc_comparable a b.
@@ -320,7 +380,7 @@ Proof.
       [exact (fc_derived_comparable _ _ _ _ _ Da Db) | apply Da | apply Db].
   - intros a b c Da Db Dc. apply fc_le_trans;
       [exact (fc_derived_comparable _ _ _ _ _ Da Db) | exact (fc_derived_comparable _ _ _ _ _ Db Dc)
-       | apply increasing_NoDup, Da | apply increasing_NoDup, Db | apply increasing_NoDup, Dc].
+       | apply Da | apply Db | apply Dc].
 Qed.
 
 Theorem fc_derived_operators a b :
@@ -337,9 +397,9 @@ Proof.
   pose (a := mk_fc [0] [0] [1; 2] [1; 2] [] (Some (H_adler K_coll_a)) false).
   pose (b := mk_fc [0] [0] [0; 3] [0; 3] [] (Some (H_adler K_coll_b)) false).
   assert (Da : fc_derived H_adler K_coll_a false a).
-  { split; [|split]; try reflexivity. apply increasingb_spec. reflexivity. }
+  { split; [|split]; try reflexivity. apply increasing_NoDup, increasingb_spec. reflexivity. }
   assert (Db : fc_derived H_adler K_coll_b false b).
-  { split; [|split]; try reflexivity. apply increasingb_spec. reflexivity. }
+  { split; [|split]; try reflexivity. apply increasing_NoDup, increasingb_spec. reflexivity. }
   assert (Hne : K_coll_a <> K_coll_b) by (intros E; discriminate E).
   destruct (R _ _ _ _ a b Hne Da Db) as [_ [_ [L _]]].
   vm_compute in L. discriminate L.
@@ -461,7 +521,7 @@ Theorem fc_from_objects_derived H b K A :
 Proof.
   intros Hwf HA. exists (closure_concept H K A). split.
   - apply fc_from_objects_is_closure; assumption.
-  - split; [|split]; try reflexivity. simpl. unfold cl_obj. apply ext_increasing.
+  - split; [|split]; try reflexivity. simpl. unfold cl_obj. apply increasing_NoDup, ext_increasing.
 Qed.
 
 (* ------------------------------------------------------------------ PatternConcept *)
@@ -504,49 +564,6 @@ Proof.
   rewrite pc_eq_is_ext_equality in E by (try apply increasing_NoDup; assumption).
   inversion E as [E']. apply same_setb_spec in E'.
   unfold pc_hashv. rewrite Hh, (increasing_same_set_eq _ _ Ha Hb E'). reflexivity.
-Qed.
-
-(* sorted(extent_i) : the insertion sort returns the canonical representative *)
-Lemma insert_sorted_In x y l : In y (insert_sorted x l) <-> y = x \/ In y l.
-Proof.
-  induction l as [|z l IH]; simpl; [intuition|].
-  destruct (Nat.leb x z); simpl; [intuition|]. rewrite IH. intuition.
-Qed.
-
-Lemma sort_nat_In y l : In y (sort_nat l) <-> In y l.
-Proof.
-  induction l as [|x l IH]; simpl; [tauto|].
-  unfold sort_nat in *. simpl. rewrite insert_sorted_In, IH. intuition.
-Qed.
-
-Lemma insert_sorted_increasing x l :
-  increasing l -> ~ In x l -> increasing (insert_sorted x l).
-Proof.
-  unfold increasing. intros Hs. induction Hs as [|z l Hs IH Hf]; intros Hx; simpl.
-  - constructor; constructor.
-  - destruct (Nat.leb_spec x z) as [L|L].
-    + assert (x < z) by (destruct (Nat.eq_dec x z); [subst; exfalso; apply Hx; left; reflexivity | lia]).
-      constructor; [constructor; assumption|]. constructor; [assumption|].
-      rewrite Forall_forall in *. intros y Hy. specialize (Hf y Hy). lia.
-    + constructor.
-      * apply IH. intros Hin. apply Hx. right. exact Hin.
-      * apply Forall_forall. intros y Hy. apply insert_sorted_In in Hy. destruct Hy as [E|Hy].
-        -- subst. exact L.
-        -- rewrite Forall_forall in Hf. apply Hf. exact Hy.
-Qed.
-
-Lemma sort_nat_increasing l : NoDup l -> increasing (sort_nat l).
-Proof.
-  induction 1 as [|x l Hx Hn IH]; [constructor|].
-  unfold sort_nat in *. simpl. apply insert_sorted_increasing; [exact IH|].
-  intros Hin. apply Hx. apply (sort_nat_In x l). exact Hin.
-Qed.
-
-Lemma sort_nat_same_set a b :
-  NoDup a -> NoDup b -> same_set a b -> sort_nat a = sort_nat b.
-Proof.
-  intros Na Nb E. apply increasing_same_set_eq; try (apply sort_nat_increasing; assumption).
-  intros x. rewrite !sort_nat_In. apply E.
 Qed.
 
 (* the hash is insensitive to the order of the stored extent exactly as == is *)
